@@ -48,6 +48,10 @@ CLAIMED = {
    technique="deterministic simulation: clients, 2..255 aggregator nodes and a collector; every protocol message is marshalled and re-parsed on its link; per-link corruption / replacement / truncation, a nonce altered for one aggregator, malicious share perturbation, report loss, aggregator restart between preparation rounds; plain-integer aggregate as reference",
    text="For Count, Sum, SumVec, Histogram and MultihotCountVec with generated parameters and 2..16 (thorough: up to 255) aggregators: intact reports are accepted by every aggregator and the unsharded aggregate equals the plain aggregate of exactly the accepted reports (also when unsharded twice and when an aggregator restarts from its marshalled preparation state); a report hit by one fault (input share flip/truncate/swap, public share flip, per-link nonce change, prep share flip/duplication, prep message flip, malicious perturbation of a share) is rejected during preparation and contributes nothing; all messages round-trip through marshalling; constructors return an error, without panicking, for fewer than two aggregators, zero chunk lengths and a Sum bound that does not fit the field.",
    note="Rejection is asserted only for faults the VDAF guarantees to detect (see assumptions in the evidence); FLP soundness error ignored."),
+ "C20": dict(engine="netsim", level="exploration", ref="DESIGN.md §3 C20",
+   technique="deterministic simulation: authority, encryptor and key-holder nodes; keys, ciphertexts and policies marshalled / printed and re-parsed on every hop; ciphertext corruption (incl. enumerated single-bit flips), truncation, extension, delivery to unqualified holders, holder restart, entropy short reads; policy-semantics evaluator as reference model",
+   text="Generated policy formulas (and/or/not, nesting, repeated labels, single leaves; up to 7 leaves over a 3x3 alphabet) are printed in several styles, parsed, used to encrypt, extracted again from the ciphertext and printed/re-parsed; for every holder (attribute maps incl. missing labels) Decrypt returns exactly the message iff the evaluator of the stated semantics says the attributes satisfy the policy, and Satisfaction / CouldDecrypt agree with it without the key; a corrupted, truncated or extended ciphertext never decrypts to a different message; keys survive marshalling.",
+   note="Formula x assignment space is sampled by the generator; the simulator contributes the parties, serialisation on every hop and the corruption faults. Pairing arithmetic is trusted (C13 not claimed)."),
 }
 
 NA = {
